@@ -4,7 +4,7 @@
 #include <vector>
 namespace vhook {
 struct FaultState { std::vector<int> plan; long calls = 0; void (*on_call)(long k, bool fail) = nullptr; };
-inline FaultState& fs() { static FaultState F; return F; }
+inline FaultState& fs() { static thread_local FaultState F; return F; }
 inline void reset_fault_plan() { fs().plan.clear(); fs().calls = 0; }
 inline void set_fault_plan(const std::vector<int>& p) { fs().plan = p; fs().calls = 0; }
 inline long fact_calls() { return fs().calls; }
